@@ -72,7 +72,9 @@ Inductive rstep :=
 | SMut (m : mutation)   (* the cluster changes *)
 | SSync                 (* all started informers have synced *)
 | SCancel               (* the caller cancels the context *)
-| SFail.                (* one informer reports a fatal (Forbidden) error *)
+| SFail                 (* one informer reports a fatal (Forbidden) error *)
+| SBreak (g : nat)      (* the watch connections of kind g break: changes are no longer delivered *)
+| SRelist (g : nat).    (* ... and are answered with 410 Expired: the reflectors of kind g re-list *)
 
 Record config := mkConfig {
   c_scope : scope;
@@ -87,7 +89,11 @@ Record rstate := mkR {
   r_synced : bool;            (* sync event sent *)
   r_stopped : bool;           (* reporter context cancelled *)
   r_errsent : bool;           (* fatalErrorOnce fired *)
-  r_events : list event
+  r_events : list event;
+  (* watch gaps: for each kind whose watch connections are broken, the objects
+     of that kind changed since the break with their state AT the break (None:
+     did not exist) -- i.e. what the informer's store still holds for them *)
+  r_gaps : list (nat * list (oid * option payload))
 }.
 
 (* ---- Watch: targets and filter ----------------------------------------- *)
@@ -133,14 +139,14 @@ Definition served (c : config) (cl : list (oid * payload)) : list nat :=
 
 (* ---- state updates ------------------------------------------------------ *)
 Definition set_cluster (st : rstate) (cl : list (oid * payload)) : rstate :=
-  mkR cl (r_mapper st) (r_started st) (r_synced st) (r_stopped st) (r_errsent st) (r_events st).
+  mkR cl (r_mapper st) (r_started st) (r_synced st) (r_stopped st) (r_errsent st) (r_events st) (r_gaps st).
 Definition set_mapper (st : rstate) (m : list nat) : rstate :=
-  mkR (r_cluster st) m (r_started st) (r_synced st) (r_stopped st) (r_errsent st) (r_events st).
+  mkR (r_cluster st) m (r_started st) (r_synced st) (r_stopped st) (r_errsent st) (r_events st) (r_gaps st).
 Definition set_started (st : rstate) (l : list target) : rstate :=
-  mkR (r_cluster st) (r_mapper st) l (r_synced st) (r_stopped st) (r_errsent st) (r_events st).
+  mkR (r_cluster st) (r_mapper st) l (r_synced st) (r_stopped st) (r_errsent st) (r_events st) (r_gaps st).
 Definition emit (st : rstate) (evs : list event) : rstate :=
   mkR (r_cluster st) (r_mapper st) (r_started st) (r_synced st) (r_stopped st) (r_errsent st)
-      (r_events st ++ evs).
+      (r_events st ++ evs) (r_gaps st).
 
 (* meta.MaybeResetRESTMapper *)
 Definition reset_mapper (c : config) (st : rstate) : rstate := set_mapper st (served c (r_cluster st)).
@@ -222,15 +228,15 @@ Definition handle_delete (c : config) (st : rstate) (id : oid) (p : payload) : r
 Definition handle_fatal (st : rstate) : rstate :=
   if r_errsent st then st
   else mkR (r_cluster st) (r_mapper st) (r_started st) (r_synced st) true true
-           (r_events st ++ [EError]).
+           (r_events st ++ [EError]) (r_gaps st).
 
 Definition do_sync (st : rstate) : rstate :=
   if r_stopped st || r_synced st then st
   else mkR (r_cluster st) (r_mapper st) (r_started st) true (r_stopped st) (r_errsent st)
-           (r_events st ++ [ESync]).
+           (r_events st ++ [ESync]) (r_gaps st).
 
 Definition do_cancel (st : rstate) : rstate :=
-  mkR (r_cluster st) (r_mapper st) (r_started st) (r_synced st) true (r_errsent st) (r_events st).
+  mkR (r_cluster st) (r_mapper st) (r_started st) (r_synced st) true (r_errsent st) (r_events st) (r_gaps st).
 
 (* ---- Start ---------------------------------------------------------------- *)
 (* startInformer at Start: the listing goes through the full AddFunc *)
@@ -242,9 +248,12 @@ Definition start_top (c : config) (st : rstate) (t : target) : rstate :=
                  (r_cluster st1) st1.
 
 Definition start (c : config) (cl : list (oid * payload)) : rstate :=
-  fold_left (start_top c) (targets c) (mkR cl (served c cl) [] false false false []).
+  fold_left (start_top c) (targets c) (mkR cl (served c cl) [] false false false [] []).
 
 (* ---- cluster mutations ----------------------------------------------------- *)
+Definition mut_id_of (m : mutation) : oid :=
+  match m with MAdd id _ | MUpdate id _ | MDelete id => id end.
+
 Definition mutate (c : config) (st : rstate) (m : mutation) : rstate :=
   match m with
   | MAdd id p | MUpdate id p =>
@@ -259,12 +268,104 @@ Definition mutate (c : config) (st : rstate) (m : mutation) : rstate :=
       end
   end.
 
+(* ---- watch gaps -------------------------------------------------------------
+   When the watch connection of an informer breaks and the server answers the
+   re-watch with 410 Gone/Expired, the reflector RE-LISTS and the shared informer
+   diffs the list against its store (DeltaFIFO.Replace): an object that is in the
+   list and in the store is delivered as ONE update notification (UpdateFunc)
+   with the listed -- final -- version, also when it was deleted and re-created
+   in between (same key, new UID: observed on the real code, a single update, no
+   tombstone); an object only in the list as an add (AddFunc); an object only in
+   the store as a cache.DeletedFinalStateUnknown tombstone (DeleteFunc, which
+   unwraps it).  Replace queues the listed objects first, then the tombstones.
+   Observed on the real code: objects that did NOT change in the gap are
+   re-reported as well -- sharedIndexInformer classifies an unchanged
+   resourceVersion as a "sync" notification, and a listener counts as syncing
+   until its first resync check (ResyncPeriod, 1 h by default), so within that
+   period every listed object yields an UpdateFunc call.  The model is that of
+   the first resync period.
+   Assumption (harness-enforced): no target of a kind is started or stopped
+   while that kind is in a gap. *)
+Definition set_gaps (st : rstate) (g : list (nat * list (oid * option payload))) : rstate :=
+  mkR (r_cluster st) (r_mapper st) (r_started st) (r_synced st) (r_stopped st) (r_errsent st)
+      (r_events st) g.
+
+Definition in_gap (st : rstate) (g : nat) : bool := existsb (fun e => Nat.eqb (fst e) g) (r_gaps st).
+
+Fixpoint gap_of (gaps : list (nat * list (oid * option payload))) (g : nat)
+  : option (list (oid * option payload)) :=
+  match gaps with
+  | [] => None
+  | (k, l) :: t => if Nat.eqb k g then Some l else gap_of t g
+  end.
+
+Definition touched (st : rstate) (g : nat) (id : oid) : bool :=
+  match gap_of (r_gaps st) g with
+  | Some l => existsb (fun e => oid_eqb (fst e) id) l
+  | None => false
+  end.
+
+(* remember the state of [id] at the break, the first time it changes in the gap *)
+Definition touch (gaps : list (nat * list (oid * option payload))) (g : nat) (id : oid)
+           (old : option payload) : list (nat * list (oid * option payload)) :=
+  map (fun e => if Nat.eqb (fst e) g
+                then (fst e, if existsb (fun x => oid_eqb (fst x) id) (snd e) then snd e
+                             else snd e ++ [(id, old)])
+                else e) gaps.
+
+Definition do_break (st : rstate) (g : nat) : rstate :=
+  if in_gap st g then st else set_gaps st (r_gaps st ++ [(g, [])]).
+
+(* a mutation the informers of its kind do not see *)
+Definition mutate_gap (st : rstate) (m : mutation) : rstate :=
+  let id := mut_id_of m in
+  let g := o_gk id in
+  let old := lookup (r_cluster st) id in
+  match m with
+  | MAdd _ p | MUpdate _ p =>
+      set_gaps (set_cluster st (upsert (r_cluster st) id p)) (touch (r_gaps st) g id old)
+  | MDelete _ =>
+      match old with
+      | None => st
+      | Some _ => set_gaps (set_cluster st (remove_obj (r_cluster st) id)) (touch (r_gaps st) g id old)
+      end
+  end.
+
+(* re-list, first pass: objects that are in the list *)
+Definition relist_upsert (c : config) (st : rstate) (e : oid * option payload) : rstate :=
+  match lookup (r_cluster st) (fst e) with
+  | Some p => if covered st (fst e) then handle_upsert c st (fst e) p else st
+  | None => st
+  end.
+(* second pass: objects of the store that are not in the list (tombstones) *)
+Definition relist_delete (c : config) (st : rstate) (e : oid * option payload) : rstate :=
+  match lookup (r_cluster st) (fst e), snd e with
+  | None, Some o => if covered st (fst e) then handle_delete c st (fst e) o else st
+  | _, _ => st
+  end.
+
+Definition do_relist (c : config) (st : rstate) (g : nat) : rstate :=
+  match gap_of (r_gaps st) g with
+  | None => st
+  | Some l =>
+      let st0 := set_gaps st (filter (fun e => negb (Nat.eqb (fst e) g)) (r_gaps st)) in
+      (* the entries recorded for kind g are objects of kind g by construction
+         ([mutate_gap]); the filter states it *)
+      let l' := filter (fun e => Nat.eqb (o_gk (fst e)) g) l in
+      (* every object of kind g in the list *)
+      let listed := map (fun kp : oid * payload => (fst kp, @None payload))
+                        (filter (fun kp => Nat.eqb (o_gk (fst kp)) g) (r_cluster st)) in
+      fold_left (relist_delete c) l' (fold_left (relist_upsert c) listed st0)
+  end.
+
 Definition rstep_apply (c : config) (st : rstate) (s : rstep) : rstate :=
   match s with
-  | SMut m => mutate c st m
+  | SMut m => if in_gap st (o_gk (mut_id_of m)) then mutate_gap st m else mutate c st m
   | SSync => do_sync st
   | SCancel => do_cancel st
   | SFail => handle_fatal st
+  | SBreak g => do_break st g
+  | SRelist g => do_relist c st g
   end.
 
 (* the cluster holds [pre] (applied to the empty cluster) when Watch is called *)
@@ -275,8 +376,7 @@ Definition run (c : config) (pre : list (oid * payload)) (steps : list rstep) : 
   fold_left (rstep_apply c) steps (start c (cluster_of pre)).
 
 (* ---- observables ------------------------------------------------------------ *)
-Definition mut_id (m : mutation) : oid :=
-  match m with MAdd id _ | MUpdate id _ | MDelete id => id end.
+Definition mut_id (m : mutation) : oid := mut_id_of m.
 
 (* status carried by the last update event about [id] *)
 Fixpoint last_for (id : oid) (evs : list event) : option status :=
